@@ -661,9 +661,13 @@ pub fn fault_indices(count: u64) -> Vec<u64> {
 pub fn drive(ctx: &mut Ctx, desc: &str, nonempty: bool, f: &dyn Fn(Option<u64>) -> Result<u64, String>) {
     // fault-free run: decides the number of fault points (needed in every shard)
     elems::reset_all();
-    let count = match catch(|| f(None)) {
-        Ok(Ok(c)) => c,
-        _ => 0, // reported by the k=- case below
+    let count = if !ctx.prerun(desc, &format!("{desc};k=-")) {
+        0
+    } else {
+        match catch(|| f(None)) {
+            Ok(Ok(c)) => c,
+            _ => 0, // reported by the k=- case below
+        }
     };
     ctx.case(&format!("{desc};k=-"), || f(None).map(|c| CaseInfo::new(false, format!("fault-free:{}", if c == 0 { "0-calls" } else { "calls" }))));
     ctx.count("fault_points", count);
